@@ -175,5 +175,6 @@ func init() {
 		}})
 	reg(&Oblig{ID: "C128-len", Pkg: "code128", Func: "VP_C128_len", Props: []string{"C05", "C10"},
 		Desc: "length limits: 80 characters accepted, 81 rejected (lower-case letters, symbolic)", Real: []string{"code128.Encode"},
-		Bound: "n in {1, 79, 80, 81, 100} symbolic lower-case letters", Configs: tiered(one("n", 1, 80, 81), one("n", 1, 79, 80, 81, 100))})
+		Bound: "n in {1, 79, 80, 81, 100} characters: symbolic lower-case letters, of which 0, 1 or 40 are FNC1 (two bytes each in the string)",
+		Configs: tiered(cross(one("n", 1, 80, 81), one("fnc", 0, 1, 40)), cross(one("n", 1, 79, 80, 81, 100), one("fnc", 0, 1, 40, 79)))})
 }
